@@ -51,10 +51,11 @@ def run_functions(index, registry, quals, models, timeout_ms, seed, second=None,
             fi = index.find(q)
             if fi is None:
                 raise Undecided("function %s not found in the current source" % q)
-            eng, obs, cx, t = verify_function(index, registry, q, models)
+            eng, obs, cx, t = verify_function(index, registry, q, models, pid=pid)
             if pid is not None:
                 # obligations tagged with properties are counted only for those; untagged (auxiliary) ones for every property
-                obs = [o for o in obs if not o.props or pid in o.props]
+                from pyvc.contracts import DEPS
+                obs = [o for o in obs if not o.props or (set(o.props) & DEPS.get(pid, {pid}))]
             if only is not None:
                 obs = [o for o in obs if only in o.name]
             rec["source_hash"] = fi.hash
